@@ -14,8 +14,11 @@ static const char *KN0[] = {"", "Alpha", "Beta", "alpha", "beta"};
 /* profiles 1, 2: the two lower-case names have EQUAL 32-bit murmur hashes (the table caches the hash and compares it first);
  * same order and same case pairs as the first set */
 static const char *KN1[] = {"", "C178039", "C290156", "c178039", "c290156"};
-#define KN (profile ? KN1 : KN0)
-static int profile;
+/* every third segment: names that differ only in non-letter bytes 0x20 apart ('@' and '`', '[' and '{', '^' and '~', '_' and DEL) -
+ * equal only to a comparison that folds case by masking a bit; same order and same case pairs as the first set */
+static const char *KN2[] = {"", "X@[^_Y", "X`{~\x7fY", "x@[^_y", "x`{~\x7fy"};
+#define KN (altnames ? KN2 : profile ? KN1 : KN0)
+static int profile, altnames, probe_bad;
 /* the integer stored through putint / read through getint changes from segment to segment and includes the extremes of int64 */
 static const int64_t IVALS[4] = {-12345, INT64_MIN, INT64_MAX, -1000000000000000000LL};
 static int64_t INTVAL = -12345;
@@ -88,7 +91,7 @@ int main(int argc, char **argv) {
                 T = NULL;
             }
             if (!got) break;
-            vh_seg++; vh_step = 0; INTVAL = IVALS[vh_seg % 4]; snprintf(intstr, sizeof intstr, "%" PRId64, INTVAL);
+            vh_seg++; altnames = (vh_seg % 3 == 2); vh_step = 0; INTVAL = IVALS[vh_seg % 4]; snprintf(intstr, sizeof intstr, "%" PRId64, INTVAL);
             mark = vh_ledger_mark();
             if (inj_at || inj_from) {
                 /* constructor under allocation failure: NULL and nothing left allocated, or a working object */
@@ -217,6 +220,17 @@ int main(int argc, char **argv) {
                         qlisttbl_t *W2 = qlisttbl(opts & ~QLISTTBL_THREADSAFE);
                         if (W2) { long c1 = (long) W2->load(W2, scratch, sep, enc), c2 = (long) W2->load(W2, scratch, sep, enc); if (c1 != cnt || c2 != cnt) badio++; W2->free(W2); }
                     }
+                    /* later operations behave normally, whatever the load reported: with injection switched off a new entry goes to
+                     * the end this table was configured to insert at (load appends in file order by overriding that option for a while) */
+                    {
+                        long fa = vh_fail_at, ff = vh_fail_from; vh_fail_at = 0; vh_fail_from = 0;
+                        size_t before = U->size(U);
+                        bool pok = U->putstr(U, "zz-probe-after-load", "p");
+                        qlisttbl_obj_t *pl = (opts & QLISTTBL_INSERTTOP) ? U->first : U->last;
+                        probe_bad = !(pok && pl && !strcmp(pl->name, "zz-probe-after-load") && U->size(U) == before + 1);
+                        if (pok) U->remove(U, "zz-probe-after-load");
+                        vh_fail_at = fa; vh_fail_from = ff;
+                    }
                     int f = 1;
                     for (qlisttbl_obj_t *p = U->first; p; p = p->next) { vh_bprintf(&ob, "%s[%d,%d]", f ? "" : ",", kid(p->name), vid(p->data, p->size)); f = 0; }
                     ok = sok && !badio && cnt >= 0 && (vh_failed == 0 || (size_t) cnt == T->size(T));
@@ -240,6 +254,15 @@ int main(int argc, char **argv) {
             vh_bprintf(&b, "],\"num\":%zu,\"leak\":%ld,\"lkd\":%ld,\"ovl\":%ld,\"bf\":%ld}", T->num, leak, VH_LOCK_BALANCE() - lkb,
                        vh_overlap_copies - ovb, vh_badfree - bfb);
             vh_bflush(&b);
+            if (!strcmp(op, "saveload")) {
+                vh_bprintf(&b, "{\"op\":\"afterload\",\"k\":0,\"v\":0,\"inj\":%ld,\"nfail\":0,\"ok\":%s,\"err\":0,\"n\":0,\"out\":[],\"ents\":[", inject ? kk : 0L, vh_bool(!probe_bad));
+                pairs(&b, T, 0);
+                vh_bprintf(&b, "],\"rents\":[");
+                pairs(&b, T, 1);
+                vh_bprintf(&b, "],\"num\":%zu,\"leak\":0,\"lkd\":0,\"ovl\":0,\"bf\":0}", T->num);
+                vh_bflush(&b);
+                probe_bad = 0;
+            }
             if (!inject || nfail == 0 || ok ) break;
         }
     }
